@@ -30,9 +30,13 @@ class Mon(drivers.Monitor):
                 self.bad = ("listed_rule_fixed_unlisted_line", rid, extra[:3])
 
 
-def run_sel(item, lines, sel):
+def run_sel(item, lines, sel, shape=None, cfg=None):
     fo = {"fix": {"rule": {r: (["all"] if v == "all" else (list(v) if isinstance(v, (list, tuple)) else sorted(v))) for r, v in sel.items()}}}
+    if shape is not None:
+        fo = shape
     it = dict(item, lines=lines, fix_only=fo)
+    if cfg is not None:
+        it["cfg"] = cfg
     it.pop("ops", None)
     mon = Mon(sel)
     ex = drivers.d_pipe(it, [mon])
@@ -84,6 +88,27 @@ def execute(item):
             viol(("empty_selection_changed_or_rewrote_the_file",), {"effective": ex.effective_rules[:3]}, {})
         elif mon.bad:
             viol(mon.bad[:1] + ("empty_selection",), {"rule": mon.bad[1]}, {})
+    # the degenerate spellings of "nothing listed" (a tool that has no diagnostics writes an empty object)
+    for nm, shape in (("{}", {}), ('{"fix":{}}', {"fix": {}})):
+        ex, mon = run_sel(item, lines, {}, shape=shape)
+        nsel += 1
+        if ex.outcome == "ok" and (ex.final_lines != lines or (ex.rl is not None and ex.rl.had_violations) or mon.bad):
+            viol(("empty_selection_changed_or_rewrote_the_file", "shape:" + nm), {"effective": ex.effective_rules[:3]}, {})
+    # configuration dimension: a reporting rule demoted to a warning is never repaired by --fix, so listing it (alone, or together with
+    # every other rule) must not repair it either: fix_{every rule: all} == fix under that configuration too
+    if V and not item.get("cfg"):
+        ridw = sorted(V)[0]
+        cfgw = {"rule": {ridw: {"severity": "Warning"}}}
+        plainw = drivers.d_pipe(dict(it0, cfg=cfgw), [])
+        if plainw.outcome == "ok":
+            ex, mon = run_sel(item, lines, {x: "all" for x in allrules}, cfg=cfgw)
+            nsel += 1
+            if ex.outcome == "ok" and ex.final_lines != plainw.final_lines:
+                viol(("all_rules_all_differs_from_plain_fix", "rule_demoted_to_warning"), {"rule": ridw}, {"<every rule>": "all"})
+            ex, mon = run_sel(item, lines, {ridw: "all"}, cfg=cfgw)
+            nsel += 1
+            if ex.outcome == "ok" and (ex.final_lines != lines or (ex.rl is not None and ex.rl.had_violations)):
+                viol(("listed_warning_rule_was_fixed_or_file_rewritten",), {"rule": ridw, "effective": ex.effective_rules[:3]}, {ridw: "all"})
     # a rule listed with no line at all, and with a line it does not report on: nothing to fix, so nothing may be written
     if V:
         rid0 = sorted(V)[0]
@@ -180,7 +205,7 @@ def main(tier):
     m = explore.run(its, execute, horizon=900.0, label=PROP, chunk=1)
     return report.finish(
         PROP, tier, "exploration", [m], t0,
-        "per seed and style (and per seed with trailing whitespace added to its first / last code line: global selections only), selections S: every rule 'all'; nothing; a rule with an empty line list;  (r,'all') for every fixable reporting rule r of the all-phases report; (r,[l]) for every reported line; (r,[l1,l2]) for "
+        "per seed and style (and per seed with trailing whitespace added to its first / last code line: global selections only), selections S: every rule 'all' (also with one reporting rule demoted to Warning by the configuration); nothing (three spellings); a warning rule listed alone; a rule with an empty line list;  (r,'all') for every fixable reporting rule r of the all-phases report; (r,[l]) for every reported line; (r,[l1,l2]) for "
         "adjacent reported lines, the same in descending order and with a line listed twice; (r,[a line r does not report]); each through the real apply_rules --fix --fix_only with a per-transition monitor (no unlisted rule fixes, a listed rule applies "
         "only violations on listed lines); for line-local rules (documented whitespace/indent/alignment/case) the changed lines are within the selection (plus trailing-whitespace-only lines) and "
         "every listed line that (r,'all') changes is changed; non-trivial = seeds with at least one fixable reporting rule",
